@@ -93,7 +93,7 @@ def presentByte (b : UInt8) : DVal := .int .u8 b.toNat
 
 /-- the text of a temporal / decimal value (chrono's `Display` of `NaiveDate` / `NaiveTime` / `NaiveDateTime` / `DateTime<Utc>`,
 the crate's `format_arrow_duration_as_span`, `format_decimal`): parameters of the specification; `none` = the formatter refuses
-the value.  The instance of the reader model is `Props.C02.readCodec` (`Codec/*.lean`; what THOSE compute is C14 / C15). -/
+the value.  The instance of the reader model is `Read.readCodec` (`Read/PresentCodec.lean`) (`Codec/*.lean`; what THOSE compute is C14 / C15). -/
 structure TextCodec where
   date : Bool → Int → Option Bytes := fun _ _ => none                 -- `true`: Date64 (milliseconds), `false`: Date32 (days)
   time : TimeUnit → Int → Option Bytes := fun _ _ => none             -- time of day in units
